@@ -44,6 +44,24 @@ def pOptValue : P (Option Value)
   | '_' :: cs => some (none, cs)
   | cs => (pValue cs).map fun (v, r) => (some v, r)
 
+/-- set-level filter operations (domain `flt`) -/
+def opsFlt (st : State) : List (String × P String) :=
+  let s := st.schema
+  [
+  ("flt.apply", arg pPaths fun ps => arg pIgnore fun ig =>
+      done (match ig with
+        | some f => encTrie (f.apply (SetTrie.ofPaths ps))
+        | none => encTrie (SetTrie.ofPaths ps))),
+  ("flt.ensure", arg pTypeRef fun tr => arg pPaths fun ps =>
+      done (encTrie ((SetTrie.ofPaths ps).ensureNamed s tr))),
+  ("rec.reconcile", arg pTypeRef fun tr => arg pPaths fun ps =>
+      done (match reconcileFieldSet s (SetTrie.ofPaths ps) tr with
+        | .ok (some t) => encTrie t
+        | .ok none => "unchanged"
+        | .err => "err"
+        | .panic => "panic"))
+  ]
+
 def stepUpd (st : State) (name : String) (rest : List Char) : Option (State × String) :=
   let s := st.schema
   match name with
